@@ -679,3 +679,7 @@ LEVEL_TEXT = ("Static verdict on necessary clauses of C18 for durations: 64-bit 
               "sub-second remainder the printer drops is a known finding.")
 TECHNIQUE = ("static analysis: typed-width inspection, value-fixed walks of the extracted reader and printer CFGs over all grammatical spellings "
              "(input bytes as constants, helpers spliced in), bit-layout agreement of constant masks, path-maximised output length")
+
+# texts brought up to date with the rules added in the last rounds
+LEVEL_TEXT = LEVEL_TEXT + " The printer's digit count is the length of the decimal spelling for every power of ten and two and their neighbours (walk of both logarithm tricks)."
+
